@@ -23,6 +23,8 @@ Round 5:
       the user handler that runs behaves as <kind>: w<code> (writes that status), perr / pstr / pabort (panics with an
       error / a string / http.ErrAbortHandler), goexit.  Outcomes then carry ` status=<c>` (a route handler's response
       status when not 200), ` end=<kind>` (the handler that ran behaved so), ` esc=<panic|goexit>` (it left ServeHTTP).
+  opt cors                           rest.WithCors(): OPTIONS requests => `204 cors`; the not-allowed handler is cors.NotAllowedHandler
+                                     (outcome `na=204404 code=404`)
   opt router                         rest.WithRouter(router.NewRouter())
   use id=<k>                => ok    Server.Use(middleware u<k>) (trail tokens u<k>, outside the route's own middlewares)
   start                     => listen | panic:<verdict>   Server.Start() on a port that cannot be opened
@@ -132,7 +134,8 @@ def ownCode (h : H) : Option Nat := if 400 ≤ h ∧ h ≤ 599 then some h else 
 def fmtResponse (resp : Response) (panics : Bool := false) : String :=
   match resp with
   | .route h ps => fmtHit h ps
-  | .customNotAllowed h => s!"na={h} code={(ownCode h).getD 200}"
+  -- (cors.NotAllowedHandler answers 404 for every method but OPTIONS, which never reaches it behind the corsRouter)
+  | .customNotAllowed h => s!"na={h} code={(ownCode h).getD (if h = corsNA then 404 else 200)}"
   | .defaultNotAllowed a => "405 allow=" ++ ",".intercalate (sortStr a)
   | .customNotFound (.plain h) => s!"nf={h} code={(ownCode h).getD 200}"
   -- engine.notFoundHandler: next runs, then `cw.WriteHeader(404)` (ignored when next wrote a status)
@@ -274,6 +277,7 @@ structure St where
   written : List (List Reg) := []  -- the caller slices as written in the `slice` lines
   rmeta : List (String × List String × Option (String × String) × List Layer) := []  -- bound route ↦ (jwt, chain of bindRoute)
   chain : Option Nat := none     -- rest.WithChain
+  cors : Bool := false           -- rest.WithCors: server.router is a corsRouter
   uses : List Nat := []          -- Server.Use middlewares so far (ids, in Use order)
 
 def patKind (pats : List String) : String :=
@@ -410,7 +414,7 @@ def runReq (r : Report) (st : St) (sidx : Nat) (l : Line) (m p : String) (auth :
       -- every outcome kind of the user handler: whatever it does, it is the handler the property names, and
       -- the status a route handler writes is the status of the response
       let userRan := match parseObs base with
-        | .hit _ _ => true | .customNF _ => true | .customNA _ => true | _ => false
+        | .hit _ _ => true | .customNF _ => true | .customNA h => h != corsNA | _ => false
       match beh with
       | some b =>
         if userRan then
@@ -528,18 +532,19 @@ def runSection (r : Report) (s : Section) : Report := Id.run do
         match (arg "nf=" [a]).bind parseItem, (arg "na=" [a]).bind parseItem with
         | some h, _ => some (.notFound h)
         | none, some h => some (.notAllowed h)
-        | none, none => if a = "router" then some .router else ((arg "chain=" [a]).bind String.toNat?).map .chain
+        | none, none => if a = "router" then some .router else if a = "cors" then some .cors
+                        else ((arg "chain=" [a]).bind String.toNat?).map .chain
       match o with
       | some o =>
         if st.built then
           if joinSp l.obs ≠ "late" then r := r.mismatch s.idx l.idx "late" (joinSp l.obs)
         else
           st := { st with opts := st.opts ++ [o], pr := { (newServer (st.opts ++ [o])).router with core := st.pr.core },
-                          chain := (newServer (st.opts ++ [o])).chain }
+                          chain := (newServer (st.opts ++ [o])).chain, cors := (newServer (st.opts ++ [o])).cors }
           r := r.addCover (match o with
             | .notFound none => "opt-notfound-nil" | .notFound _ => "opt-notfound-custom"
             | .notAllowed none => "opt-notallowed-nil" | .notAllowed _ => "opt-notallowed-custom"
-            | .router => "opt-WithRouter" | .chain _ => "opt-WithChain")
+            | .router => "opt-WithRouter" | .chain _ => "opt-WithChain" | .cors => "opt-WithCors")
           if joinSp l.obs ≠ "ok" then r := r.mismatch s.idx l.idx "ok" (joinSp l.obs)
       | none => r := r.mismatch s.idx l.idx "bad-op" (joinSp l.op)
     | "group" :: args =>
@@ -627,6 +632,14 @@ def runSection (r : Report) (s : Section) : Report := Id.run do
       match arg "m=" args, arg "p=" args with
       | some m, some p =>
         if kvStr s.cfg "kind" = "server" then st := { st with built := true }
+        -- rest.WithCors: the CORS middleware in front of the patRouter answers every OPTIONS request itself (as implemented:
+        -- an OPTIONS route is never dispatched then; PropsEntry.cors_preflight_never_dispatches)
+        let srvModel : Server := { router := st.pr, cors := st.cors }
+        if srvModel.serveHTTP m p = .preflight then
+          r := r.addCover "req-cors-preflight-answered-by-the-middleware"
+          if rooted p ∧ !(Spec.candidates st.tbl m (cleanToks p)).isEmpty then r := r.addCover "req-cors-preflight-shadows-a-matching-OPTIONS-route"
+          if (joinSp (l.obs.drop 1)) ≠ "204 cors" then r := r.mismatch s.idx l.idx "204 cors" (joinSp (l.obs.drop 1))
+        else
         r := runReq r st s.idx l m p (arg "auth=" args) (kvStr s.cfg "kind" = "server") (arg "ctx=" args) (arg "beh=" args)
         st := { st with served := true }
       | _, _ => r := r.mismatch s.idx l.idx "bad-op" (joinSp l.op)
